@@ -12,7 +12,7 @@ for label in sorted(R, key=lambda k: (0 if k.startswith("C") else 1 if k.startsw
     nofi = sorted(k for k, v in fired.items() if v != "concrete")
     if not exp:
         st = "quiet (as required)" if not fired else "**FALSE ALARM**"
-        exp_txt = ("none (behaviour changed where no property constrains it)" if label[4:7] in ("H16", "H17", "H18", "H19") else "none (independent refactoring)") if label.startswith("ref-") else "none (harmless rewrite)"
+        exp_txt = ("none (behaviour changed where no property constrains it)" if label[4:7] in ("H16", "H17", "H18", "H19", "H20", "H21", "H22", "H23") else "none (independent refactoring)") if label.startswith("ref-") else "none (harmless rewrite)"
         stats["quiet" if not fired else "false"] += 1
     elif any(e in fired for e in exp):
         st = "caught"
